@@ -94,8 +94,8 @@ let hm_line = function
   | ["null"] | ["kvfree"] -> "ok"
   | ["iter0"] ->
     let m = hnew None false in
-    let (it1, r1) = iter_next false m (iter_init false) in
-    let (it2, r2) = iter_next false m it1 in
+    let (it1, r1) = iter_next true m (iter_init false) in
+    let (it2, r2) = iter_next true m it1 in
     Printf.sprintf "r=%d%d ib=%d ie=%s%s" (if r1 then 1 else 0) (if r2 then 1 else 0) (ion it2.it_bucket)
       (soz it2.it_entry) (if it2.it_fault then " FAULT" else "")
   | op :: args ->
@@ -128,8 +128,8 @@ let hm_line = function
         | "count", [] -> "n=" ^ soz (h_count m)
         | "iter", [] -> fst (hm_iter_line m)
         | "iterx", [] ->
-          (* the call after the end: answered by the guarded variant (false, iterator unchanged); the code reads
-             past the bucket array there (C18_hmap_iter_next_after_end_refuted) *)
+          (* the call after the end: false, iterator unchanged (guard = true is the code since e161ae8; the code before read
+             past the bucket array there: C18_hmap_iter_next_after_end_refuted) *)
           let (s, itf) = hm_iter_line m in
           let (it2, again) = iter_next true m itf in
           s ^ Printf.sprintf " again=%d ib2=%d" (if again then 1 else 0) (ion it2.it_bucket)
@@ -246,9 +246,9 @@ let rb_state r =
 
 let rb_line = function
   | ["new"; us; len] ->
-    (* capacity 0 (only generated with VERIF_CONT_OPEN=1): the model creates the degenerate ring as the unchanged code does *)
-    let r = rb_create [] (z_of_string len) in
-    rbs := Some (r, int_of_string us); rb_state r
+    (match rb_create_opt [] (z_of_string len) with
+     | None -> rbs := None; "null"
+     | Some r -> rbs := Some (r, int_of_string us); rb_state r)
   | ["wrap"; us; bl] ->
     (match rb_wrap [] (z_of_string bl) (z_of_string us) with
      | None -> rbs := None; "null"
